@@ -109,11 +109,33 @@ def scan_forbidden():
     return hits
 
 
+_LOCK_DEPTH = [0]
+
+
+class build_lock(object):
+    """Exclusive, re-entrant (within this process) lock on coq/: one writer of
+    generated sources / one make at a time, so that a run against a scratch
+    worktree (VERIF_REPO) and a run against /repo never mix generated files."""
+    def __enter__(self):
+        import fcntl
+        if _LOCK_DEPTH[0] == 0:
+            self.lk = open(os.path.join(COQ, '.build.lock'), 'w')
+            fcntl.flock(self.lk, fcntl.LOCK_EX)
+        else:
+            self.lk = None
+        _LOCK_DEPTH[0] += 1
+        return self
+
+    def __exit__(self, *a):
+        _LOCK_DEPTH[0] -= 1
+        if self.lk is not None:
+            self.lk.close()
+        return False
+
+
 def coq_make(targets, timeout=1500):
     """make the given .vo targets (paths relative to coq/). Returns (ok, log)."""
-    import fcntl
-    with open(os.path.join(COQ, '.build.lock'), 'w') as lk:
-        fcntl.flock(lk, fcntl.LOCK_EX)      # one make at a time in coq/
+    with build_lock():
         coq_project()
         rc, out = sh(['make', '-j%d' % NPROC, '-k'] + list(targets), cwd=COQ, timeout=timeout)
     return rc == 0, out
@@ -175,17 +197,18 @@ def coq_props(pid, extra_targets=(), translators=()):
         res['error'] = 'forbidden constructs in the development: ' + '; '.join(bad)
         res['broken'] = 'scan_forbidden'
         return res
-    terrs = run_translators(translators)
-    if terrs:
-        res['error'] = 'translator failed (source outside the supported subset): ' + '; '.join('%s: %s' % e for e in terrs)
-        res['broken'] = 'translator:' + ','.join(e[0] for e in terrs)
-        return res
-    vo = rel + 'o'
-    try:
-        os.remove(os.path.join(COQ, vo))
-    except OSError:
-        pass
-    ok, log = coq_make([vo] + list(extra_targets))
+    with build_lock():                  # regenerate + build atomically
+        terrs = run_translators(translators)
+        if terrs:
+            res['error'] = 'translator failed (source outside the supported subset): ' + '; '.join('%s: %s' % e for e in terrs)
+            res['broken'] = 'translator:' + ','.join(e[0] for e in terrs)
+            return res
+        vo = rel + 'o'
+        try:
+            os.remove(os.path.join(COQ, vo))
+        except OSError:
+            pass
+        ok, log = coq_make([vo] + list(extra_targets))
     res['log'] = log
     if not ok:
         f, ln, msg = first_error(log)
